@@ -7,7 +7,8 @@ use serde_json::json;
 use std::collections::BTreeSet;
 
 const ELIGIBLE_NAMES: [&str; 10] = ["A.sol", ".sol", "a b.sol", "合约.sol", "x.sol.sol", "T.SOL.sol", "UPPER.sol", "a.tt.sol", "at.sol", "t.sol"];
-const INELIGIBLE_NAMES: [&str; 26] = [
+const INELIGIBLE_NAMES: [&str; 38] = [
+    "é.json", "設計.txt", "ü.md", "añb.txt", "ñ", "日本語.md", "résumé.txt", "é.t.sol", "合.SOL", "ö.sol~", "a\u{0301}.txt", "𝔘.dat",
     "a.SOL", "a.Sol", "a.sOl", "a.sol.bak", "a.sol~", "a.solx", "asol", "sol", "a.t.sol", "A.T.SOL", "a.T.sol", "a.t.Sol", ".t.sol", "Vault.t.sol",
     "README.md", "Makefile", "with space.txt", "tab\tname", "line\nbreak.sol.txt", "a.sol ", "a.sol.", "合约.t.sol", "a.json", "b.t.SOL", ".gitignore", "x.T.Sol",
 ];
